@@ -556,7 +556,9 @@ func (e *Engine) libMods(callee *ssa.Function, c *ssa.CallCommon, m *ModSet) {
 		if pt, ok := target.Type().Underlying().(*types.Pointer); ok {
 			// decoding into a value of a known type writes only what is reachable from that type
 			seen := map[string]bool{}
-			e.typeReach(pt.Elem(), seen, func(n string) { m.add(n, modOld) })
+			// (the pointer type itself: for a pointer to a slice / map / basic variable the variable's cell is written)
+			e.typeReach(target.Type(), seen, func(n string) { m.add(n, modOld) })
+			_ = pt
 			return
 		}
 		m.All = true
